@@ -26,4 +26,6 @@ func VerifLocalAggregateECPoints(points []*math.G2, evaluationPoints ...int64) *
 func VerifCurve() *math.Curve { return c }
 
 // VerifSecretParts exposes the unblinding secret, so that the harness can call UnBlind on objects (twice).
-func VerifSecretParts(us *UnblindingSecret) (*math.G1, []*math.Zr, *math.Zr) { return us.h, us.msg, us.z }
+func VerifSecretParts(us *UnblindingSecret) (*math.G1, []*math.Zr, *math.Zr) {
+	return us.h, us.msg, us.z
+}
